@@ -29,7 +29,7 @@ theorem commitReconf_failed (d : Dir) (nd user : Dict) (r : Except Err Interp) (
     · simp_all
     · split at h <;> simp_all
 
-theorem commitConf_failed (d : Dir) (c : Core) (args : List (Key × Option Val)) (files : List (Str × Defs))
+theorem commitConf_failed (d : Dir) (c : Core) (args : List (Key × Option Val)) (files : List (Str × Option Bool × Defs))
     (r : Except Err Bool × Store) (e : Err) (l : Bool)
     (h : (commitConf d c args files r).2 = .failed e l) : (commitConf d c args files r).1 = d := by
   obtain ⟨r, s⟩ := r
